@@ -29,7 +29,8 @@ func TestVerifSim(t *testing.T) {
 			"pkg/cluster.Node.ReadChannelCommitted / ReadChannelCommittedBatch / ApplyChannelRetentionBoundary on a partially constructed Node (real router table and real slot metadata DB)"},
 		Stub: []string{"clusternet.Caller (simulated network: reorder, drop, response loss, isolation)",
 			"slot metadata replication: one authoritative metadata history, per-node lagging view served through ChannelMetaSource; one shared metadata DB for the management path",
-			"control plane and management retention operator (tape-drawn metadata changes and boundary values)", "clients", "durable quorum log (transitional pull/ack replication path is used)"},
+			"control plane and management retention operator (tape-drawn metadata changes and boundary values)", "clients",
+			"repl_mode=pullack runs: no durable quorum log (transitional pull/ack replication); repl_mode=quorum runs use the production composition of pkg/cluster/node_defaults.go (replication.NewStoreAdapter + channels.NewQuorumPeerLink + replication.NewRuntime, QuorumLog into channels.NewService, quorum exchange gateway registered; exchanges travel through the simulated caller with the real codec)"},
 		Rule: "One run = one synctest bubble with 3 real channel nodes, one channel, a tape-driven control plane, appenders, readers and retention appliers. " +
 			"Non-trivial = at least one read returned messages AND (a fault fired OR a retention boundary was adopted OR a leader change happened).",
 		Assumptions: []string{"testing/synctest fake clock and quiescence semantics (go1.26.8)",
@@ -42,6 +43,7 @@ func TestVerifSim(t *testing.T) {
 type cfg struct {
 	noFaults  bool
 	msgdb     bool
+	quorum    bool // production composition: reactor appends through replication.Runtime (Install/Commit)
 	minISR    int
 	ops       int
 	fDrop     bool
@@ -70,6 +72,8 @@ type opRec struct {
 	msgID    uint64
 	applyRes ch.RetentionApplyResult
 	through  uint64
+	meta     ch.Meta // applymeta ops
+	hasMeta  bool
 }
 
 type readMsg struct {
@@ -86,9 +90,11 @@ type snap struct {
 	ret     channelstore.RetentionState
 	present []uint64
 	stored  map[uint64]readMsg // durable rows by sequence
-	view    int
-	viewMin int
-	viewRet uint64
+	// inflight: an append proposal is out on this node's reactor (observed in quorum mode only)
+	inflight bool
+	view     int
+	viewMin  int
+	viewRet  uint64
 }
 
 type engine struct {
@@ -113,6 +119,8 @@ type engine struct {
 	readers      map[ch.NodeID]*infracluster.ChannelMessageReader
 	mgmt         map[ch.NodeID]mgmtNode
 	c06Logged    bool
+	acked        map[uint64]bool   // message ids acknowledged to a client
+	tainted      bool              // run ended by a C01 loss seen at the service level
 	deferred     *pendingViolation // client-path read violation with a known root cause
 	deferredMgmt *pendingViolation // management-path read violation
 }
@@ -127,7 +135,13 @@ func drawCfg(r *simkit.Run) cfg {
 	tp := r.Tape
 	c := cfg{}
 	c.noFaults = tp.Intn(4) == 0
-	c.msgdb = tp.Intn(3) == 2
+	// one draw for store and replication composition: 0..2 keep the meaning they
+	// had when only the store was drawn (0,1 memory, 2 MessageDB; pull/ack
+	// replication), 3..5 are the same stores under the production composition
+	// (durable quorum log)
+	comp := tp.Intn(6)
+	c.msgdb = comp%3 == 2
+	c.quorum = comp >= 3
 	c.minISR = 1 + tp.Weighted([]int{1, 5, 2})
 	c.ops = 10 + tp.Intn(26)
 	c.mgmtReads = tp.Intn(3) == 1
@@ -144,7 +158,7 @@ func drawCfg(r *simkit.Run) cfg {
 func runChanSim(t *testing.T, r *simkit.Run) {
 	c := drawCfg(r)
 	r.Config = map[string]any{"nofaults": c.noFaults, "msgdb": c.msgdb, "minisr": c.minISR, "ops": c.ops, "drop": c.fDrop, "isolate": c.fIsolate,
-		"regress": c.fRegress, "beyond": c.fBeyond, "mgmt_reads": c.mgmtReads, "trim_limit": c.trimLimit}
+		"regress": c.fRegress, "beyond": c.fBeyond, "mgmt_reads": c.mgmtReads, "trim_limit": c.trimLimit, "repl_mode": replModeName(c.quorum)}
 	// The world contains ~100 goroutines of real code that hand work to one
 	// another inside one scheduler step; with several Ps two of them can
 	// occasionally race for a reactor mailbox slot in either order (seen once in
@@ -154,9 +168,26 @@ func runChanSim(t *testing.T, r *simkit.Run) {
 		defer runtime.GOMAXPROCS(prev)
 	}
 	simkit.Bubble(t, r, func() {
-		e := &engine{t: t, r: r, c: c, barrierIDs: map[uint64]bool{}, nextMsgID: 5000}
+		e := &engine{t: t, r: r, c: c, barrierIDs: map[uint64]bool{}, acked: map[uint64]bool{}, nextMsgID: 5000}
 		e.run()
 	})
+}
+
+func replModeName(quorum bool) string {
+	if quorum {
+		return "quorum"
+	}
+	return "pullack"
+}
+
+// taintC01 ends the run without a report: an acknowledged message was lost by
+// quorum recovery, which is property C01's (known findings C01-K*), not C10's.
+func (e *engine) taintC01(detail string) {
+	e.r.Probe("c01_loss_observed_at_service_level")
+	if !e.tainted {
+		e.r.Logf("run ends (tainted by C01, nothing reported): %s", detail)
+	}
+	e.tainted = true
 }
 
 func (e *engine) run() {
@@ -166,13 +197,20 @@ func (e *engine) run() {
 		r.Infra("stores: %v", err)
 		return
 	}
-	w, err := newWorld(r, 3, stores)
+	w, err := newWorldOpts(r, 3, stores, worldOpts{batchWait: time.Millisecond, quorum: e.c.quorum})
 	if err != nil {
 		cleanup()
 		r.Infra("world: %v", err)
 		return
 	}
 	e.w = w
+	w.inflightFn = func(n ch.NodeID) bool {
+		if len(e.snaps) == 0 {
+			return false
+		}
+		s := e.snaps[len(e.snaps)-1][n]
+		return s != nil && s.inflight
+	}
 	e.t0 = time.Now()
 	defer cleanup()
 	defer w.close()
@@ -186,11 +224,11 @@ func (e *engine) run() {
 	e.publishMeta(first, "initial")
 	for _, id := range w.ids {
 		w.nodes[id].view = 1
-		if err := w.nodes[id].svc.ApplyMeta(cloneMeta(first)); err != nil {
-			r.Infra("initial ApplyMeta node %d: %v", id, err)
-			return
-		}
 		w.nodes[id].applied = 1
+	}
+	if err := w.bootstrap(e.metaAt(1)); err != nil {
+		r.Infra("initial ApplyMeta: %v", err)
+		return
 	}
 	skew := time.Duration(1+r.Tape.Intn(97)) * time.Microsecond
 	sched := &simkit.Scheduler{R: r, MaxSteps: 60 + e.c.ops*12,
@@ -203,6 +241,9 @@ func (e *engine) run() {
 			return 0
 		},
 		Done: func() bool {
+			if e.tainted {
+				return true
+			}
 			if time.Since(e.t0) > simTimeCap {
 				r.Probe("run.sim_time_cap")
 				return true
@@ -214,6 +255,9 @@ func (e *engine) run() {
 	sched.Run()
 	// deferred read violations: client path first, management path last, so
 	// that neither surface masks the other (nor anything else) inside a run
+	if e.tainted {
+		return // nothing is reported about a run in which quorum recovery lost an acknowledged message
+	}
 	if !r.Failed() && e.deferred != nil {
 		d := e.deferred
 		r.FailSig(d.class, d.sig, d.detail, d.facts)
@@ -234,6 +278,16 @@ func (e *engine) run() {
 func (e *engine) publishMeta(m ch.Meta, why string) {
 	w := e.w
 	w.mu.Lock()
+	if e.c.quorum {
+		// the quorum authority is (epoch, leader epoch, route generation): the slot
+		// metadata store bumps the generation on every change of the record
+		m.RouteGeneration = uint64(len(w.metas))
+		// and the quorum log only accepts strict-majority write quorums
+		// (replication.validateRecoveryTopology: quorum*2 > len(voters))
+		if m.MinISR*2 <= len(m.ISR) {
+			m.MinISR = len(m.ISR)/2 + 1
+		}
+	}
 	w.metas = append(w.metas, cloneMeta(m))
 	v := len(w.metas) - 1
 	w.mu.Unlock()
@@ -272,11 +326,16 @@ func (e *engine) observe() {
 		}
 		ctx, cancel := context.WithTimeout(context.Background(), time.Second)
 		rv, err := n.svc.RetentionView(ctx, w.id)
-		cancel()
 		if err == nil {
 			s.loaded = true
 			s.rv = rv
 		}
+		if e.c.quorum {
+			if pr, perr := n.svc.RuntimeProbe(ctx, ch.RuntimeSelector{ChannelIDs: []ch.ChannelID{w.id}}); perr == nil && len(pr.Channels) == 1 {
+				s.inflight = pr.Channels[0].InflightAppend || pr.Channels[0].PendingAppendCount > 0
+			}
+		}
+		cancel()
 		st, err := n.fac.ChannelStore(w.key, w.id)
 		if err != nil {
 			r.Infra("observe: ChannelStore node %d: %v", id, err)
@@ -308,6 +367,10 @@ func (e *engine) observe() {
 					s.stored = map[uint64]readMsg{}
 				}
 				s.stored[m.MessageSeq] = readMsg{seq: m.MessageSeq, id: m.MessageID, syncOnce: m.SyncOnce}
+				if m.SyncOnce {
+					// also the barrier records the quorum log itself writes on Install
+					e.barrierIDs[m.MessageID] = true
+				}
 				if e.barrierIDs[m.MessageID] && !m.SyncOnce {
 					// the durable copy on this node no longer carries the marker
 					r.Probe("store.barrier_marker_lost")
@@ -420,6 +483,43 @@ func (e *engine) checkStep(prev, cur map[ch.NodeID]*snap, idx int) {
 			if !have[s] {
 				deleted = append(deleted, s)
 			}
+		}
+		if e.c.quorum {
+			// With the quorum log a leader change runs recovery (Install), which may
+			// replace a node's suffix. Rows that vanish or change identity above the
+			// adopted retention boundary are recovery's work, not retention's, and
+			// belong to C01/C02 (quorumsim). If such a row had been acknowledged to a
+			// client this is the known C01 loss seen at the service level: the run is
+			// ended without a report so that no C10 oracle speaks about its consequences.
+			boundary := c.ret.LocalRetentionThroughSeq
+			var kept []uint64
+			replaced := 0
+			for _, s := range deleted {
+				if s > boundary {
+					replaced++
+					if e.acked[p.stored[s].id] {
+						e.taintC01(fmt.Sprintf("node %d lost acknowledged message %d at seq %d (recovery replaced its suffix)", id, p.stored[s].id, s))
+						return
+					}
+					continue
+				}
+				kept = append(kept, s)
+			}
+			for _, s := range p.present {
+				row := p.stored[s]
+				if now, ok := c.stored[s]; ok && now.id != row.id && s > boundary {
+					replaced++
+					if e.acked[row.id] {
+						e.taintC01(fmt.Sprintf("node %d: acknowledged message %d at seq %d was replaced by message %d", id, row.id, s, now.id))
+						return
+					}
+				}
+			}
+			if replaced > 0 {
+				r.Probe("quorum.recovery_replaced_unacknowledged_suffix")
+				r.Logf("  recovery on node %d replaced %d unacknowledged row(s) above retention boundary %d", id, replaced, boundary)
+			}
+			deleted = kept
 		}
 		if len(deleted) == 0 {
 			continue
